@@ -11,10 +11,27 @@ package dataset
 //@   pure
 //@ assumed dataset.findRefs
 //@   pure
-//@ assumed dataset.processRefs
+
+// key layouts used by the compactor: the latest pointer of the version's entity in the version's dataset, and the
+// outgoing / incoming reference keys of a version (the layouts the write path of internal/server uses)
+//@ unit dataset.mkLatestKey
+//@   prop C12
+//@   requires len(jsonKey) == 24
+//@   ensures [C12:latest-pointer-key-of-the-versions-entity-and-dataset] len(result) == 14 && encBE16(result, 0) == 8 && encBE32(result, 2) == encBE32(jsonKey, 10) && encBE64(result, 6) == encBE64(jsonKey, 2)
+//@   modifies none
+//@   safe slice
+//@ assumed (entity.Lookup).InternalIDForCURIE
 //@   pure
-//@ assumed dataset.mkLatestKey
+//@ assumed dataset.toRefs
 //@   pure
+//@ unit dataset.processRefs
+//@   prop C12
+//@   requires ent != nil && len(jsonKey) == 24
+//@   safe slice
+//@   at call append#1 before
+//@     assert [C12:outgoing-reference-key-of-this-version] len($arg1) == 1 && len($arg1[0]) == 40 && encBE16($arg1[0], 0) == 3 && encBE64($arg1[0], 2) == ent.InternalID && encBE64($arg1[0], 10) == ent.Recorded && encBE64($arg1[0], 18) == predid && encBE64($arg1[0], 26) == relatedid && encBE16($arg1[0], 34) == (ent.IsDeleted ? 1 : 0) && encBE32($arg1[0], 36) == encBE32(jsonKey, 10)
+//@   at call append#2 before
+//@     assert [C12:incoming-reference-key-of-this-version] len($arg1) == 1 && len($arg1[0]) == 40 && encBE16($arg1[0], 0) == 2 && encBE64($arg1[0], 2) == relatedid && encBE64($arg1[0], 10) == ent.InternalID && encBE64($arg1[0], 18) == ent.Recorded && encBE64($arg1[0], 26) == predid && encBE16($arg1[0], 34) == (ent.IsDeleted ? 1 : 0) && encBE32($arg1[0], 36) == encBE32(jsonKey, 10)
 //@ assumed bytes.Equal
 //@   pure
 //@ assumed reflect.DeepEqual
